@@ -294,6 +294,7 @@ def cp2k_cell(cp, a, b, c, al, be, ga):
     return [[harness.to_term(M[i, j]) if not isinstance(M[i, j], (int, float)) else z3.RealVal(Fraction(float(M[i, j]))) for j in range(3)] for i in range(3)]
 
 
+@symnp.outside_session
 def replay_lattice(which, abc, ang):
     if which == "wien2k":
         import phonopy.interface.wien2k as w2
